@@ -150,8 +150,9 @@ def lookup_inst(fn_name, tier, be_cls='vsbx'):
     be_fn = 'impl_internal_lookup_symbol' if (internal and be_cls == 'vsbx_il') else 'impl_lookup_symbol'
     wrong_fn = 'impl_lookup_symbol' if be_fn == 'impl_internal_lookup_symbol' else 'impl_internal_lookup_symbol'
     be = ('backend %s(recording stub)' % be_fn, _is(be_fn),
+          '__CPROVER_requires(!((struct %s *)g_obj)->%s.present[g_name_id]) /*@nothing_is_cached_for_the_name_while_the_backend_may_still_refuse_it*/\n'
           '__CPROVER_ensures(g_be_lookups == __CPROVER_old(g_be_lookups) + 1 && g_be_lookup_name == (unsigned long)$0 && (unsigned long)$ret == g_be_lookup_result)\n'
-          '__CPROVER_assigns(g_be_lookups, g_be_lookup_name)')
+          '__CPROVER_assigns(g_be_lookups, g_be_lookup_name)' % (SBX, 'internal_func_ptr_map' if internal else 'func_ptr_map'))
     other = ('backend %s(must not be used here)' % wrong_fn, _is(wrong_fn), '__CPROVER_requires(0) /*@the_other_kind_of_lookup_is_never_used*/\n__CPROVER_assigns()')
     cl = [('obj', '__CPROVER_requires(__CPROVER_rw_ok($this, sizeof(struct %s)) && g_be_lookups == 0 && g_name == (unsigned long)$0)' % SBX),
           ('cached_name_answered_from_this_instances_cache', '__CPROVER_ensures(__CPROVER_old(%s.present[g_name_id]) ==> ((unsigned long)$ret == (unsigned long)__CPROVER_old(%s.val[g_name_id]) && g_be_lookups == 0))' % (M, M)),
@@ -161,10 +162,10 @@ def lookup_inst(fn_name, tier, be_cls='vsbx'):
           # the frame leaves the other cache out: application-side addresses and sandbox-side representations never mix
           ('frame_only_its_own_cache', '__CPROVER_assigns(%s, g_be_lookups, g_be_lookup_name)' % M)]
     h = ('  struct %s sb; uintptr_t in_name; g_name = in_name; unsigned char in_id; g_name_id = in_id; unsigned char in_o; g_o = in_o;\n'
-         '  unsigned long in_res; g_be_lookup_result = in_res; g_be_lookups = 0;\n  void *r = (void *)$ROOT(&sb, (const char *)in_name);\n' % SBX)
+         '  unsigned long in_res; g_be_lookup_result = in_res; g_be_lookups = 0; g_obj = &sb;\n  void *r = (void *)$ROOT(&sb, (const char *)in_name);\n' % SBX)
     return Inst('c11_%s%s' % (fn_name, '' if be_cls == 'vsbx' else '_distinct_representations'), 'rlbox_sandbox<%s>& s, const char* n' % be_cls, 's.%s(n);' % fn_name, cl, h,
                 leaves=['dynamic_check', be, other], prop=PROP, root_name=fn_name,
-                tier=tier, pre=SYM_GH, opts={'map_str_keys': True}, extra_replace=['vstd_string_cstr', 'vstd_str_id'],
+                tier=tier, pre=SYM_GH + ' void *g_obj;', opts={'map_str_keys': True}, extra_replace=['vstd_string_cstr', 'vstd_str_id'],
                 note='std::map<std::string, void*> as an array view over abstract name ids (M-map, string keys); the caches are members of this sandbox object; backend %s' % be_cls)
 
 
